@@ -64,64 +64,158 @@ def vars_of(e):
 
 
 _LIN_CACHE = {}
-_MONO = {}
+_MONO = {}          # monomial key (sorted tuple of atom names) -> (z3 var, is_even_power)
+_ATOMS = {}         # opaque real-valued subterm (ite, division ...) sexpr -> (z3 var, defining constraint | None)
+_POLY_CACHE = {}
+_ATOM_BY_NAME = {}
 
 
-def linearise(e):
-    """Linear relaxation: expand to sum-of-monomials and replace every nonlinear monomial by a fresh variable
-    (same monomial -> same variable).  unsat of the relaxation implies unsat of the original."""
-    k = e.get_id()
-    r = _LIN_CACHE.get(k)
+def _mono_var(key):
+    m = _MONO.get(key)
+    if m is None:
+        cnt = {}
+        for k in key:
+            cnt[k] = cnt.get(k, 0) + 1
+        m = (z3.Real("mono!%d" % len(_MONO)), all(v % 2 == 0 for v in cnt.values()))
+        _MONO[key] = m
+    return m[0]
+
+
+def _padd(p, q, sign=1):
+    out = dict(p)
+    for k, v in q.items():
+        nv = out.get(k, 0) + sign * v
+        if nv == 0:
+            out.pop(k, None)
+        else:
+            out[k] = nv
+    return out
+
+
+def _pmul(p, q):
+    out = {}
+    for k1, v1 in p.items():
+        for k2, v2 in q.items():
+            k = tuple(sorted(k1 + k2))
+            nv = out.get(k, 0) + v1 * v2
+            if nv == 0:
+                out.pop(k, None)
+            else:
+                out[k] = nv
+    if len(out) > 200000:
+        raise z3.Z3Exception("polynomial too large for the relaxation")
+    return out
+
+
+def poly_of(t, side):
+    """polynomial normal form {monomial: coefficient} of a z3 Real term; opaque subterms become atoms."""
+    i = t.get_id()
+    r = _POLY_CACHE.get(i)
     if r is not None:
         return r[1]
-    t = z3.simplify(e, som=True, sort_sums=True)
-    cache = {}
-
-    def walk(y):
-        i = y.get_id()
-        if i in cache:
-            return cache[i]
-        if z3.is_const(y) or z3.is_rational_value(y):
-            out = y
+    if z3.is_rational_value(t):
+        v = Fraction(t.numerator_as_long(), t.denominator_as_long())
+        out = {(): v} if v != 0 else {}
+    elif z3.is_const(t) and t.decl().kind() == z3.Z3_OP_UNINTERPRETED:
+        out = {(t.decl().name(),): Fraction(1)}
+    else:
+        k = t.decl().kind()
+        ch = t.children()
+        if k == z3.Z3_OP_ADD:
+            out = {}
+            for c in ch:
+                out = _padd(out, poly_of(c, side))
+        elif k == z3.Z3_OP_SUB:
+            out = poly_of(ch[0], side)
+            for c in ch[1:]:
+                out = _padd(out, poly_of(c, side), -1)
+        elif k == z3.Z3_OP_UMINUS:
+            out = _padd({}, poly_of(ch[0], side), -1)
+        elif k == z3.Z3_OP_MUL:
+            out = {(): Fraction(1)}
+            for c in ch:
+                out = _pmul(out, poly_of(c, side))
+        elif k == z3.Z3_OP_POWER and z3.is_rational_value(ch[1]) and ch[1].denominator_as_long() == 1 \
+                and 0 <= ch[1].numerator_as_long() <= 8:
+            base = poly_of(ch[0], side)
+            out = {(): Fraction(1)}
+            for _ in range(ch[1].numerator_as_long()):
+                out = _pmul(out, base)
+        elif k == z3.Z3_OP_DIV and z3.is_rational_value(ch[1]) and ch[1].numerator_as_long() != 0:
+            d = Fraction(ch[1].numerator_as_long(), ch[1].denominator_as_long())
+            out = {kk: v / d for kk, v in poly_of(ch[0], side).items()}
+        elif k == z3.Z3_OP_TO_REAL:
+            out = poly_of(ch[0], side)
         else:
-            ch = [walk(c) for c in y.children()]
-            kind = y.decl().kind()
-            if kind == z3.Z3_OP_MUL:
-                nums = [c for c in ch if z3.is_rational_value(c)]
-                rest = [c for c in ch if not z3.is_rational_value(c)]
-                if len(rest) >= 2:
-                    key = tuple(sorted(c.sexpr() for c in rest))
-                    m = _MONO.get(key)
-                    if m is None:
-                        m = (z3.Real("mono!%d" % len(_MONO)), len(set(key)) == 1 and len(key) % 2 == 0)
-                        _MONO[key] = m
-                    out = m[0]
-                    for c in nums:
-                        out = c * out
-                else:
-                    out = y.decl()(*ch)
-            elif kind == z3.Z3_OP_POWER:
-                key = ("pow", ch[0].sexpr(), ch[1].sexpr())
-                m = _MONO.get(key)
-                if m is None:
-                    m = (z3.Real("mono!%d" % len(_MONO)), False)
-                    _MONO[key] = m
-                out = m[0]
-            elif kind in (z3.Z3_OP_DIV, z3.Z3_OP_IDIV) and not z3.is_rational_value(ch[1]):
-                key = ("div", ch[0].sexpr(), ch[1].sexpr())
-                m = _MONO.get(key)
-                if m is None:
-                    m = (z3.Real("mono!%d" % len(_MONO)), False)
-                    _MONO[key] = m
-                out = m[0]
-            else:
-                out = y.decl()(*ch)
-        cache[i] = out
-        return out
-
-    out = walk(t)
-    _LIN_CACHE[k] = (e, out)
+            key = t.sexpr()
+            a = _ATOMS.get(key)
+            if a is None:
+                v = z3.Real("atom!%d" % len(_ATOMS))
+                d = None
+                if k == z3.Z3_OP_ITE:
+                    d = (v, ch)
+                a = (v, d)
+                _ATOMS[key] = a
+                _ATOM_BY_NAME[v.decl().name()] = a
+            if a[1] is not None:
+                side[a[0].decl().name()] = a
+            out = {(a[0].decl().name(),): Fraction(1)}
+    _POLY_CACHE[i] = (t, out)
     return out
+
+
+def _lin_expr(p):
+    terms = []
+    const = Fraction(0)
+    for k, v in p.items():
+        if k == ():
+            const += v
+        elif len(k) == 1:
+            terms.append(z3.RealVal(str(v)) * z3.Real(k[0]))
+        else:
+            terms.append(z3.RealVal(str(v)) * _mono_var(k))
+    e = z3.Sum(terms) if terms else z3.RealVal(0)
+    return e + z3.RealVal(str(const)) if const != 0 else e
+
+
+def linearise(e, side=None):
+    """Linear relaxation of a Boolean combination of polynomial (in)equalities: every nonlinear monomial is replaced by a
+    fresh variable (same monomial -> same variable).  Own polynomial normal form (z3's simplifier rewrites products
+    compared with zero into sign case splits, which would hide the monomials)."""
+    if side is None:
+        side = {}
+    i = e.get_id()
+    r = _LIN_CACHE.get(i)
+    if r is not None:
+        side.update(r[2])
+        return r[1]
+    myside = {}
+    out = _lin_bool(e, myside)
+    _LIN_CACHE[i] = (e, out, myside)
+    side.update(myside)
+    return out
+
+
+def _lin_bool(e, side):
+    if z3.is_true(e) or z3.is_false(e):
+        return e
+    k = e.decl().kind()
+    ch = e.children()
+    if k in (z3.Z3_OP_AND, z3.Z3_OP_OR, z3.Z3_OP_NOT, z3.Z3_OP_IMPLIES, z3.Z3_OP_XOR):
+        return e.decl()(*[_lin_bool(c, side) for c in ch])
+    if k == z3.Z3_OP_ITE and z3.is_bool(e):
+        return z3.If(_lin_bool(ch[0], side), _lin_bool(ch[1], side), _lin_bool(ch[2], side))
+    if k in (z3.Z3_OP_EQ, z3.Z3_OP_DISTINCT) and ch and z3.is_bool(ch[0]):
+        return e.decl()(*[_lin_bool(c, side) for c in ch])
+    if k in (z3.Z3_OP_LE, z3.Z3_OP_LT, z3.Z3_OP_GE, z3.Z3_OP_GT, z3.Z3_OP_EQ) and len(ch) == 2 and z3.is_arith(ch[0]):
+        d = _lin_expr(_padd(poly_of(ch[0], side), poly_of(ch[1], side), -1))
+        zero = z3.RealVal(0)
+        return {z3.Z3_OP_LE: d <= zero, z3.Z3_OP_LT: d < zero, z3.Z3_OP_GE: d >= zero, z3.Z3_OP_GT: d > zero,
+                z3.Z3_OP_EQ: d == zero}[k]
+    if k == z3.Z3_OP_DISTINCT and len(ch) == 2 and z3.is_arith(ch[0]):
+        d = _lin_expr(_padd(poly_of(ch[0], side), poly_of(ch[1], side), -1))
+        return d != z3.RealVal(0)
+    return e        # Boolean variable or something opaque
 
 
 def _flatten_and(cs):
@@ -167,17 +261,100 @@ def eliminate_definitions(constraints):
     return out
 
 
+def _var_signs(flat, side):
+    """syntactic sign facts  v >= 0 / v <= 0  from top-level conjuncts that constrain a single variable."""
+    sg = {}
+    for c in flat:
+        if not z3.is_app(c):
+            continue
+        k = c.decl().kind()
+        neg = False
+        if k == z3.Z3_OP_NOT:
+            c = c.children()[0]
+            k = c.decl().kind()
+            neg = True
+        ch = c.children()
+        if k not in (z3.Z3_OP_LE, z3.Z3_OP_LT, z3.Z3_OP_GE, z3.Z3_OP_GT, z3.Z3_OP_EQ) or len(ch) != 2 or not z3.is_arith(ch[0]):
+            continue
+        try:
+            p = _padd(poly_of(ch[0], side), poly_of(ch[1], side), -1)
+        except z3.Z3Exception:
+            continue
+        if len(p) != 1:
+            continue
+        (key, coef), = p.items()
+        if len(key) != 1:
+            continue
+        rel = {z3.Z3_OP_LE: "<=", z3.Z3_OP_LT: "<", z3.Z3_OP_GE: ">=", z3.Z3_OP_GT: ">", z3.Z3_OP_EQ: "=="}[k]
+        if neg:
+            rel = {"<=": ">", "<": ">=", ">=": "<", ">": "<=", "==": None}[rel]
+        if rel is None:
+            continue
+        if coef < 0:
+            rel = {"<=": ">=", "<": ">", ">=": "<=", ">": "<", "==": "=="}[rel]
+        cur = sg.setdefault(key[0], set())
+        if rel in (">=", ">", "=="):
+            cur.add("nonneg")
+        if rel in ("<=", "<", "=="):
+            cur.add("nonpos")
+    return sg
+
+
 def relaxation_unsat(constraints, timeout_ms=3000):
-    lin = [linearise(c) for c in eliminate_definitions(constraints)]
+    """LRA relaxation over monomials of: the constraints as given, and the same with definitional equalities of auxiliary
+    variables substituted; plus sign rules (even powers >= 0, products of sign-known variables, v*v = 0 => v = 0)."""
+    side = {}
+    flat = _flatten_and(constraints)
+    elim = eliminate_definitions(constraints)
+    seen = set()
+    lin = []
+    for c in flat + elim:
+        if c.get_id() in seen:
+            continue
+        seen.add(c.get_id())
+        lin.append(linearise(c, side))
     s = z3.Solver()
     s.set("timeout", int(timeout_ms))
     s.add(*lin)
+    done = set()
+    while True:
+        names = set()
+        for c in s.assertions():
+            names |= vars_of(c)
+        todo = [n for n in names if n.startswith("atom!") and n not in done]
+        if not todo:
+            break
+        for n in todo:
+            done.add(n)
+            v, d = _ATOM_BY_NAME[n]
+            if d is not None:
+                var, ch = d
+                s.add(var == z3.If(_lin_bool(ch[0], side), _lin_expr(poly_of(ch[1], side)), _lin_expr(poly_of(ch[2], side))))
     names = set()
-    for c in lin:
+    for c in s.assertions():
         names |= vars_of(c)
-    for key, (v, square) in _MONO.items():
-        if square and v.decl().name() in names:
+    sg = _var_signs(flat, side)
+    for key, (v, even) in list(_MONO.items()):
+        if v.decl().name() not in names:
+            continue
+        if even:
             s.add(v >= 0)
+            if len(set(key)) == 1 and len(key) == 2:
+                s.add(z3.Implies(v <= 0, z3.Real(key[0]) == 0))
+            continue
+        sign = 1
+        known = True
+        for f in key:
+            fs = sg.get(f)
+            if not fs:
+                known = False
+                break
+            if "nonneg" in fs and "nonpos" in fs:
+                sign = 0
+            elif "nonpos" in fs:
+                sign = -sign
+        if known:
+            s.add(v == 0 if sign == 0 else (v >= 0 if sign > 0 else v <= 0))
     return str(s.check()) == "unsat"
 
 
@@ -992,6 +1169,15 @@ def decide(c, claim, extra=None):
         levels.append(1)
     if has_abs:
         levels.append(2)
+    if len(levels) > 1 and c.opts.get("relax", True):
+        # cheap first shot: linear relaxation of the exact level
+        try:
+            if relaxation_unsat(c._slice(seeds, levels[-1]) + extra + [neg]):
+                c.stats.relaxed_unsat = getattr(c.stats, "relaxed_unsat", 0) + 1
+                c.stats.queries["unsat"] += 1
+                return "unsat", None, levels[-1], time.time() - t0
+        except z3.Z3Exception:
+            pass
     for level in levels:
         final = level == levels[-1]
         cons = c._slice(seeds, level) + extra + [neg]
